@@ -150,9 +150,10 @@ def run(tier, seed, drv):
                 if only_sb:
                     env2 = dict(os.environ, CARGO_NET_OFFLINE="true", CARGO_TARGET_DIR=os.path.join(ROOT, "target", "miri"), MIRIFLAGS="-Zmiri-disable-isolation -Zmiri-ignore-leaks -Zmiri-symbolic-alignment-check -Zmiri-tree-borrows")
                     p2 = subprocess.run(["cargo", "+nightly", "miri", "run", "--offline", "-q", "-p", "rt"] + FEAT + ["--", "C01", "--tier", "miri", "--out", "/dev/null", "--engines", str(i)] + (["--deep"] if deep else []), cwd=os.path.join(ROOT, "harness"), env=env2, stdout=subprocess.PIPE, stderr=subprocess.PIPE, text=True, errors="replace")
-                    confirmed = "Undefined Behavior" in p2.stderr
-                    if not confirmed:
-                        rep["notes"].append(f"{name}: a Stacked-Borrows-only report was not confirmed under Tree Borrows and is not counted")
+                    if "Undefined Behavior" not in p2.stderr:
+                        # both aliasing models are experimental; Stacked Borrows is the interpreter's default and the unchanged
+                        # tree is clean under it in every tier, so a report under it alone is counted (and labelled)
+                        msg = "[Stacked Borrows only: the same run is accepted under Tree Borrows] " + msg
                 if confirmed:
                     rep["violations"].append({"engine": "miri", "func": name, "replay": f"miri|{i}", "case": f"Miri while running: {name}", "expected": "no undefined behaviour", "observed": msg, "class": "miri-ub"})
                 continue
@@ -216,7 +217,7 @@ def run(tier, seed, drv):
     rep["range_checks"] = rt.get("range_checks", 0)
     rep["utf8_checks"] = rt.get("utf8_checks", 0)
     rep["rule"] = ("three monitors over the other properties' explorations: (1) rustc const evaluation of the ctfe battery (const-fn drivers looping over small alphabets through every unsafe-backed safe function / macro; E0080 = violation); "
-                   "(2) native: " + rt.get("rule", "") + "; (3) Miri: every bounded explorer of C02-C09, C15, C20 (thorough: also C12, C13, C16) plus a driver for maybe_uninit/manually_drop/ptr/nonnull/array macros/destructure!/DSL, at the reduced interpreter bound, one interpreter process per engine; a Stacked-Borrows-only report is re-run under Tree Borrows and counted only if both reject; distinct_nontrivial = range checks + interpreted transitions")
+                   "(2) native: " + rt.get("rule", "") + "; (3) Miri: every bounded explorer of C02-C09, C15, C20 (thorough: also C12, C13, C16) plus a driver for maybe_uninit/manually_drop/ptr/nonnull/array macros/destructure!/DSL, at the reduced interpreter bound, one interpreter process per engine; a Stacked-Borrows report is re-run under Tree Borrows and labelled when only Stacked Borrows rejects; distinct_nontrivial = range checks + interpreted transitions")
     rep["bounds"] = f"ctfe: {drivers} const drivers; native: tier {tier}; Miri: {n_eng} engines at the {'deep' if deep else 'quick'} interpreter bound"
     rep["samples"] = ["ctfe: driver_slices / driver_strings / driver_chr / driver_slice_iters / driver_arrays / driver_destructure / driver_cstr / driver_parser"] + rt.get("samples", [])[:2] + [f"Miri: {k} ({v['seconds']}s)" for k, v in list(per_engine.items())[:4]]
     rep["notes"] += rt.get("notes", [])
